@@ -315,7 +315,11 @@ def run(tier):
                         sc['files']['policy.txt'] = POLICY
                         scs.append(sc)
                         meta.append((lst, k, order, js, pol, labels))
-    ck.log('%d multi-target scenarios' % len(scs))
+    extra_scs = [(multi.eager(sc), m) for sc, m in zip(scs, meta) if m[1] >= 2 and m[3]]
+    extra_scs = rnd.sample(extra_scs, min(len(extra_scs), 40 if tier == 'quick' else 400))
+    scs += [x[0] for x in extra_scs]
+    meta += [x[1] for x in extra_scs]
+    ck.log('%d multi-target scenarios (%d of them again under schedule perturbation)' % (len(scs), len(extra_scs)))
     results = runner.run_many(scs)
     traces, tmeta = [], []
     for sc, m, r in zip(scs, meta, results):
